@@ -17,6 +17,8 @@ import (
 	"github.com/btcsuite/btcd/txscript/v2"
 	"github.com/btcsuite/btcd/wire/v2"
 	"github.com/lightningnetwork/lnd/channeldb"
+	"github.com/lightningnetwork/lnd/lnwire"
+	"github.com/lightningnetwork/lnd/tlv"
 )
 
 type verifFork struct {
@@ -172,9 +174,24 @@ func verifProjCommit(c *channeldb.ChannelCommitment) string {
 		return hs[i].HtlcIndex < hs[j].HtlcIndex
 	})
 	for _, h := range hs {
-		fmt.Fprintf(&b, "[in=%v id=%d li=%d amt=%d exp=%d out=%d rh=%x sig=%x onion=%x] ",
+		var bp []byte
+		h.BlindingPoint.WhenSome(func(r tlv.RecordT[lnwire.BlindingPointTlvType, *btcec.PublicKey]) {
+			if r.Val != nil {
+				bp = r.Val.SerializeCompressed()
+			}
+		})
+		var crKeys []uint64
+		for k := range h.CustomRecords {
+			crKeys = append(crKeys, k)
+		}
+		sort.Slice(crKeys, func(i, j int) bool { return crKeys[i] < crKeys[j] })
+		cr := ""
+		for _, k := range crKeys {
+			cr += fmt.Sprintf("%d=%x,", k, h.CustomRecords[k])
+		}
+		fmt.Fprintf(&b, "[in=%v id=%d li=%d amt=%d exp=%d out=%d rh=%x sig=%x onion=%x bp=%x cr=%s] ",
 			h.Incoming, h.HtlcIndex, h.LogIndex, h.Amt, h.RefundTimeout, h.OutputIndex,
-			h.RHash[:6], h.Signature, sha256.Sum256(h.OnionBlob[:]))
+			h.RHash[:6], h.Signature, sha256.Sum256(h.OnionBlob[:]), bp, cr)
 	}
 	return b.String()
 }
